@@ -403,9 +403,16 @@ def _tables(ctx):
         if isinstance(node, ast.Call) and isinstance(node.func, ast.Name) and node.func.id == "_" and node.args \
                 and isinstance(node.args[0], ast.Constant):
             aa_codes.add(node.args[0].value)
+    literal_shape = bool(aa_codes) and not __import__("os").environ.get("C18_FORCE_BUILT")
+    std = set("ACDEFGHIKLMNPQRSTVWY")
+    if not literal_shape:
+        # the table is not written as literal _("A", ...) entries: its keys are taken from the table the module builds
+        # (interpreted with an opaque formula for every formula string; averaged entries are R2's subject), and the member
+        # lists of the averaged codes from the calls the module makes to its averaging helper
+        _tables_built(ctx, site, std)
+        return
     ctx.check(len(aa_codes) >= 20, "R5", "the amino-acid table defines at least the 20 standard residues",
               f"{len(aa_codes)} literal codes found", site, sample=sorted(aa_codes))
-    std = set("ACDEFGHIKLMNPQRSTVWY")
     ctx.check(std <= aa_codes, "R5", "all 20 standard one-letter codes are present", f"missing {sorted(std - aa_codes)}", site)
     defined = set(aa_codes)
     order = list(sorted(aa_codes))
@@ -445,4 +452,75 @@ def _tables(ctx):
         if code in iupac:
             ctx.check(sorted(bases) == sorted(iupac[code]), "R5", f"nucleotide code '{code}' stands for '{iupac[code]}' (IUPAC)",
                       f"'{code}' averages over '{bases}'", site)
+    ctx.floor("R5", 20)
+
+
+def _tables_built(ctx, site, std):
+    w, _seen = setup(ctx)
+    I, A = w.I, w.atoms
+    fm = I.global_name("formulas", "formula")
+    n_ = [0]
+
+    def any_formula(I_, args, kw):
+        n_[0] += 1
+        return I_.call(fm, [{A["element"]: sp.Symbol(f"g{n_[0]}", positive=True), A["H1"]: sp.Integer(1)}], {})
+    I.stubs["formulas.parse_formula"] = any_formula
+    m_ = [0]
+
+    def any_sld(I_, args, kw):
+        m_[0] += 1
+        return tuple(sp.Symbol(f"sld{m_[0]}_{k}", real=True) for k in ("re", "im", "inc"))
+    I.stubs["nsf.neutron_sld"] = any_sld
+    I.call_log = []
+    try:
+        aa = I.global_name("fasta", "AMINO_ACID_CODES")
+        tabs = I.global_name("fasta", "CODE_TABLES")
+    except SymRaise as exc:
+        raise AnalysisError(f"the code tables of fasta could not be built in the interpreter: {exc}")
+    # the module-level statements that follow the table (they install the averaged codes) are executed on it
+    from ptstat.symx import Frame as _Frame
+    started, mod_frame = False, _Frame(I, "fasta", "fasta")
+    for st in ctx.src.module("fasta").tree.body:
+        if isinstance(st, ast.Assign) and any(isinstance(t_, ast.Name) and t_.id == "AMINO_ACID_CODES" for t_ in st.targets):
+            started = True
+            continue
+        if not started:
+            continue
+        if isinstance(st, ast.Assign):
+            break
+        if isinstance(st, ast.Expr) and isinstance(st.value, ast.Call) or isinstance(st, (ast.For, ast.Delete)):
+            try:
+                I.exec_stmt(st, mod_frame, sp.true)
+            except SymRaise as exc:
+                raise AnalysisError(f"module-level statement at fasta.py:{st.lineno} raises {exc} in the interpreter")
+    log, I.call_log = I.call_log, None
+    if not isinstance(aa, dict) or not isinstance(tabs, dict):
+        raise AnalysisError("fasta.AMINO_ACID_CODES / CODE_TABLES are not dictionaries")
+    keys = {k for k in aa if isinstance(k, str)}
+    ctx.check(len(keys) >= 20, "R5", "the amino-acid table defines at least the 20 standard residues", f"{len(keys)} codes: {sorted(keys)}", site,
+              sample=sorted(keys))
+    ctx.check(std <= keys, "R5", "all 20 standard one-letter codes are present", f"missing {sorted(std - keys)}", site)
+    for code in ("B", "Z", "J", "X", "-"):
+        ctx.check(code in keys, "R5", f"averaged code '{code}' is installed in the amino-acid table", "absent", site)
+    # member strings handed to the averaging helper (a two-argument private function of fasta called with a string of codes)
+    members = []
+    for fn_, args_, kw_ in log:
+        q_ = getattr(getattr(fn_, "fn", fn_), "qual", "")
+        if q_.startswith("fasta.") and len(args_) >= 2 and isinstance(args_[0], str) and isinstance(args_[1], dict):
+            members.append((args_[0], set(k for k in args_[1] if isinstance(k, str))))
+    iupac = {"A", "C", "G", "T", "AG", "CT", "GT", "AC", "CG", "AT", "CGT", "AGT", "ACT", "ACG", "ACGT", ""}
+    amino = {"DN", "EQ", "IL", "".join(sorted(std)), ""}
+    nuc_calls = [(m_, t_) for m_, t_ in members if t_ and t_ <= set("ACGTU")]
+    for m_, t_ in nuc_calls:
+        ctx.check("".join(sorted(m_)) in iupac and len(set(m_)) == len(m_), "R5", f"nucleotide ambiguity code averaged over '{m_}': an IUPAC member list, each base once",
+                  f"'{m_}' is not the member list of an IUPAC code", site)
+    for m_, t_ in members:
+        if (m_, t_) not in nuc_calls:
+            ctx.check("".join(sorted(m_)) in amino and len(set(m_)) == len(m_) and set(m_) <= t_ | set(), "R5",
+                      f"amino-acid code averaged over '{m_ if len(m_) < 6 else 'the 20 standard residues'}': the documented members, defined at that point",
+                      f"'{m_}' with the table holding {sorted(t_)}", site)
+    for typ in ("rna", "dna"):
+        tab = tabs.get(typ)
+        ctx.check(isinstance(tab, dict) and set("ACG") <= set(tab) and ("T" in tab or "U" in tab), "R5", f"the {typ} table has the four bases", f"{sorted(tab) if isinstance(tab, dict) else tab}", site)
+    ctx.check(len(nuc_calls) >= 11, "R5", "the nucleotide ambiguity codes are built by the averaging helper", f"{len(nuc_calls)} averaged nucleotide codes seen", site)
     ctx.floor("R5", 20)
